@@ -320,14 +320,22 @@ class TransportTransfer(_DeviceUnit):
         top = 9 if tier == "quick" else 40
         cs = [{"transport": t, "phase": ph, "len": "any"} for t in ("sgio", "iscsi") for ph in ("in", "out", "none")]
         cs += [{"transport": "iscsi", "phase": ph, "len": n} for ph in ("in", "out") for n in range(1, top)]
+        # the SG_IO binding may report a residual count for a short transfer: whatever it returns, the command keeps its buffers
+        cs += [{"transport": "sgio", "phase": ph, "len": n, "resid": True} for ph in ("in", "out") for n in (1, 4, 8, 36)]
         return cs
+
+    def case_id(self, case):
+        return ",".join("%s=%s" % kv for kv in sorted(case.items()))
 
     def inputs(self, case):
         if case["phase"] == "none":
             return {}
         if case["len"] == "any":
             return {"data": Buf(maxlen=1 << 32)}
-        return {"data": Bytes(case["len"])}
+        d = {"data": Bytes(case["len"])}
+        if case.get("resid"):
+            d["resid"] = U(lo=0, hi=case["len"])
+        return d
 
     def run(self, X, case, a):
         w = World()
@@ -338,10 +346,19 @@ class TransportTransfer(_DeviceUnit):
         cmd = SimpleNamespace(cdb=bytearray(10), datain=a.data if case["phase"] == "in" else empty, dataout=a.data if case["phase"] == "out" else empty,
                               sense=None, raw_sense_data=None)
         self.cmd = cmd
+        self.lens = (V.buf_len(cmd.datain), V.buf_len(cmd.dataout), cmd.datain, cmd.dataout)
+        if case.get("resid"):
+            w.resid = a.resid
         with world_installed(w):
             dev = X.call(devmod().SCSIDevice, PATH, True, False) if case["transport"] == "sgio" else X.call(iscsimod().ISCSIDevice, URL, "iqn.2000-01.test:i")
             del w.trace[:]
-            return X.call(dev.execute, cmd)
+            r = X.call(dev.execute, cmd)
+            # the same command object executed again (polling, retry): it must announce and carry the same transfer
+            self.second = None
+            if case.get("resid"):
+                X.call(dev.execute, cmd)
+                self.second = [t for t in w.trace if t[0] == "sgio.execute"][-1]
+            return r
 
     def ensures(self, case, a, out, X):
         if out.kind != "return":
@@ -349,7 +366,15 @@ class TransportTransfer(_DeviceUnit):
             return
         w, cmd = self.world, self.cmd
         sent = [t for t in w.trace if t[0] in ("sgio.execute", "iscsi.command")]
-        yield "C03", "binding-receives-exactly-one-command", len(sent) == 1
+        n_in, n_out, o_in, o_out = self.lens
+        yield "C03", "execute-leaves-the-commands-buffers-in-place-and-at-their-length", cmd.datain is o_in and cmd.dataout is o_out and \
+            V.compare("==", V.buf_len(cmd.datain), n_in) is not False and V.compare("==", V.buf_len(cmd.dataout), n_out) is not False and \
+            (V.is_buffer(cmd.datain) and V.buf_len(cmd.datain) == n_in) is not False
+        yield "C03", "binding-receives-exactly-one-command-per-execute", len(sent) == (2 if case.get("resid") else 1)
+        if case.get("resid"):
+            _, _, cdb2, dout2, din2, _ = self.second
+            yield "C03", "re-executed-command-hands-over-buffers-of-the-announced-length", V.band(V.compare("==", V.buf_len(din2), n_in), V.compare("==", V.buf_len(dout2), n_out))
+            return
         if len(sent) != 1:
             return
         if sent[0][0] == "sgio.execute":
@@ -544,7 +569,7 @@ class SgioRelease(_DeviceUnit):
         return [D.close, D.__enter__, D.__exit__, SCSI.__enter__, SCSI.__exit__]
 
     def cases(self, tier):
-        return [{"via": v, "how": h} for v in ("device", "facade") for h in ("close", "with-normal", "with-exception")]
+        return [{"via": v, "how": h} for v in ("device", "facade") for h in ("close", "with-normal") + tuple("with-exception:" + k for k in EXIT_EXCEPTIONS)]
 
     def inputs(self, case):
         return {"ino0": U(32)}
@@ -571,8 +596,8 @@ class SgioRelease(_DeviceUnit):
             if case["how"] == "with-normal":
                 X.call(obj.__exit__, None, None, None)
             else:
-                ex = RuntimeError("body failed")
-                r = X.call(obj.__exit__, RuntimeError, ex, None)
+                ex = exit_exception(case["how"], dev)
+                r = X.call(obj.__exit__, type(ex), ex, None)
                 return ("exit-returned", r, ctx is obj)
             return ("exit-returned", None, ctx is obj)
 
@@ -581,8 +606,24 @@ class SgioRelease(_DeviceUnit):
         yield "C15", "exactly-one-close-on-the-handle", self.h0.close_calls == 1 and len(self.world.events("close")) == 1
         if out.kind == "return" and out.value is not None:
             yield "C15", "__enter__-returns-the-object", out.value[2]
-            if case["how"] == "with-exception":
+            if case["how"].startswith("with-exception"):
                 yield "C15", "__exit__-does-not-swallow-the-exception", not out.value[1]
+
+
+# the kinds of exception a with block is left by: an ordinary error, the errors an unplugged / failing node produces,
+# a failed command, and a BaseException
+EXIT_EXCEPTIONS = ("RuntimeError", "FileNotFoundError", "OSError", "PermissionError", "ValueError", "CheckCondition", "KeyboardInterrupt")
+
+
+def exit_exception(how, dev):
+    kind = how.split(":", 1)[1]
+    if kind == "CheckCondition":
+        return dev.CheckCondition(bytes([0x70, 0, 5, 0, 0, 0, 0, 10, 0, 0, 0, 0, 0x24, 0, 0, 0, 0, 0]))
+    import builtins as _b
+
+    if kind in ("FileNotFoundError", "PermissionError"):
+        return getattr(_b, kind)(2, "No such file or directory", PATH)
+    return getattr(_b, kind)("body failed")
 
 
 class IscsiRelease(_DeviceUnit):
@@ -594,7 +635,7 @@ class IscsiRelease(_DeviceUnit):
         return [D.close, D.__enter__, D.__exit__]
 
     def cases(self, tier):
-        return [{"how": h} for h in ("close", "with-normal", "with-exception")]
+        return [{"how": h} for h in ("close", "with-normal") + tuple("with-exception:" + k for k in EXIT_EXCEPTIONS)]
 
     def run(self, X, case, a):
         w = World()
@@ -607,7 +648,8 @@ class IscsiRelease(_DeviceUnit):
             ctx = X.call(dev.__enter__)
             if case["how"] == "with-normal":
                 return ("exit-returned", X.call(dev.__exit__, None, None, None), ctx is dev)
-            return ("exit-returned", X.call(dev.__exit__, RuntimeError, RuntimeError("x"), None), ctx is dev)
+            ex = exit_exception(case["how"], dev)
+            return ("exit-returned", X.call(dev.__exit__, type(ex), ex, None), ctx is dev)
 
     def ensures(self, case, a, out, X):
         yield "C15", "release-returns", out.kind == "return"
